@@ -21,11 +21,11 @@ Theorem C08_bg_pileup_is_coverage :
 Proof. exact bg_pileup_is_coverage. Qed.
 Print Assumptions C08_bg_pileup_is_coverage.
 
-(* T2: the boolean mask is "coverage > 0" (input in any order). *)
+(* T2: the boolean mask is "coverage > 0" (input in any order; empty intervals allowed). *)
 Theorem C08_mask_is_positive_coverage :
-  forall I size, 0 <= size -> (forall i, In i I -> fst i < snd i /\ 0 <= fst i /\ snd i <= size) ->
+  forall I size, 0 <= size -> (forall i, In i I -> 0 <= fst i /\ fst i <= snd i /\ snd i <= size) ->
   mask_model I size = Some (mask_spec I size).
-Proof. exact mask_is_positive_coverage. Qed.
+Proof. exact mask_is_positive_coverage_gen. Qed.
 Print Assumptions C08_mask_is_positive_coverage.
 
 (* T3: merging sorted intervals with distance d >= 0 returns the maximal runs of the union, consecutive runs
